@@ -25,9 +25,10 @@ var allOps = []string{
 
 // callSpec is one API call: the abstract (logged) arguments and a closure that performs it.
 type callSpec struct {
-	op   string
-	args M
-	call func(u uhppote.IUHPPOTE) (any, error)
+	op        string
+	args      M
+	call      func(u uhppote.IUHPPOTE) (any, error)
+	reproject func() M // the arguments projected again from the values the caller holds (nil: immutable)
 }
 
 // G generates argument values. `i` is a sweep index (0..255 sweeps every one-byte argument
@@ -247,6 +248,7 @@ func segPair(a, b M) M { return M{"start": a, "end": b} }
 func (g *G) call(op string, serial uint32) callSpec {
 	a := M{"serial": u32(serial)}
 	var f func(u uhppote.IUHPPOTE) (any, error)
+	var reproj func() M
 
 	switch op {
 	case "GetDevices":
@@ -337,6 +339,23 @@ func (g *G) call(op string, serial uint32) callSpec {
 		a["card"] = M{"n": u32(n), "from": pf, "to": pt, "doors": pd, "pin": u32(pin)}
 		a["formats"] = pfm
 		f = func(u uhppote.IUHPPOTE) (any, error) { return u.PutCard(serial, card, formats...) }
+		reproj = func() M {
+			pd2 := []any{}
+			for _, kv := range pd {
+				k := kv.([]any)[0].(int)
+				if v, ok := doors[uint8(k)]; ok {
+					pd2 = append(pd2, []any{k, int(v)})
+				}
+			}
+			if len(doors) != len(pd) {
+				pd2 = append(pd2, "changed")
+			}
+			fm2 := []any{}
+			for _, x := range formats {
+				fm2 = append(fm2, int(x))
+			}
+			return M{"serial": u32(serial), "card": M{"n": u32(card.CardNumber), "from": projDate(card.From), "to": projDate(card.To), "doors": pd2, "pin": u32(uint32(card.PIN))}, "formats": fm2}
+		}
 	case "DeleteCards":
 		f = func(u uhppote.IUHPPOTE) (any, error) { return u.DeleteCards(serial) }
 	case "GetTimeProfile":
@@ -461,13 +480,26 @@ func (g *G) call(op string, serial uint32) callSpec {
 		}
 		a["readers"] = pr
 		f = func(u uhppote.IUHPPOTE) (any, error) { return u.ActivateKeypads(serial, readers) }
+		reproj = func() M {
+			pr2 := []any{}
+			for _, kv := range pr {
+				k := kv.([]any)[0].(int)
+				if v, ok := readers[uint8(k)]; ok {
+					pr2 = append(pr2, []any{k, v})
+				}
+			}
+			if len(readers) != len(pr) {
+				pr2 = append(pr2, "changed")
+			}
+			return M{"serial": u32(serial), "readers": pr2}
+		}
 	case "RestoreDefaultParameters":
 		f = func(u uhppote.IUHPPOTE) (any, error) { return u.RestoreDefaultParameters(serial) }
 	default:
 		panic("unknown op " + op)
 	}
 
-	return callSpec{op: op, args: a, call: f}
+	return callSpec{op: op, args: a, call: f, reproject: reproj}
 }
 
 // ---- projections (deliberately dumb: field copies) --------------------------------------------
